@@ -36,7 +36,8 @@ INFO = {
               "abstract checksum callback: returns the input-supplied state after p+n octets when fed state p and the "
               "next n octets of the current image, an unconstrained value otherwise",
               "memcpy/memset byte loops (harness/lib/libc_models.c)"],
-    "assumptions": ["checksum on the medium is compared in host (little-endian) representation of the 16/32-bit integer",
+    "assumptions": ["the PersistentStorage object holds arbitrary stale octets before persistent_init (symbolic input)",
+                    "checksum on the medium is compared in host (little-endian) representation of the 16/32-bit integer",
                     "region [base, base+cs+N) does not wrap 2^32", "order of configuration calls in {sum,place},{place,sum},{no place, base 0}"],
 }
 
@@ -52,7 +53,8 @@ def _unwind(n):
         "a_match": n + 2, "c10_current": n + 2, "c10_same": n + 2,
         "c10_get_data": n + 2, "c10_put_data": n + 2, "c10_data_is": n + 2, "c10_outside_same": msize + 2,
         "c10_medium_same": msize + 2, "c10_snapshot": msize + 2, "c10_begin": msize + 2,
-        "dst_guards_same": n + 6, "scenario": max(msize + 2, 200), "harness": max(6, n + 3),
+        "c10_set_stale": 200, "c10_instance": 200,
+        "dst_guards_same": n + 6, "scenario": msize + 2, "harness": max(6, n + 3),
     }
 
 
